@@ -57,6 +57,17 @@ func (p *c05) Init(tier string) {
 			}
 		}
 	}
+	// bounds near the end of the integer range: offset + limit must not be computed in a way that
+	// wraps around
+	const big = int(^uint(0) >> 1)
+	for _, kl := range [][]OrderKey{nil, {{"a", false}}} {
+		for _, w := range [][2]int{{big, -1}, {big, 0}, {big, 1}, {big, 2}, {big - 1, 1}, {big - 1, 2}, {big - 2, 3}, {1 << 62, 1 << 62}, {2, big}, {0, big}, {big, big}, {big, big - 1}, {1 << 32, 1}, {1, 1 << 32}, {1 << 31, 1 << 31}} {
+			p.cases = append(p.cases, c05case{keys: kl, limit: w[0], offset: w[1]})
+			if w[1] >= 0 {
+				p.cases = append(p.cases, c05case{keys: kl, limit: w[0], offset: w[1], comma: true})
+			}
+		}
+	}
 	// the window inside a nested SELECT (CTE body, derived table)
 	for _, form := range []int{1, 2} {
 		for _, kl := range keyLists {
@@ -161,7 +172,7 @@ func (p *c05) Init(tier string) {
 	}
 }
 
-func (p *c05) NumCases() int { return len(p.cases) }
+func (p *c05) NumCases() int { return len(p.cases) + 1 }
 
 func (p *c05) sel(c *c05case) *Select {
 	s := NewSelect("t", Item{E: Col{"id"}}, Item{E: Col{"a"}}, Item{E: Col{"b"}})
@@ -246,6 +257,9 @@ func (p *c05) runAgg(r *core.CaseResult, c *c05case, sql string) {
 }
 
 func (p *c05) Describe(i int) any {
+	if i == len(p.cases) {
+		return map[string]any{"kind": "rows changed in place between two executions of one query with WHERE / ORDER BY / LIMIT / OFFSET: 7 queries x every single edit and every pair of edits of the key column (the result grows, shrinks, is reordered); the second execution must equal a fresh query"}
+	}
 	return map[string]any{"query": p.sqlOf(&p.cases[i]), "tables": fmt.Sprintf("all %d tables of <= %d rows over 7 archetypes (ties, NULL key)", len(p.tables), map[string]int{"quick": 3, "thorough": 5}[p.tier])}
 }
 
@@ -336,6 +350,10 @@ func (p *c05) RunCase(i int) *core.CaseResult {
 	defer withNoise()()
 	r := &core.CaseResult{}
 	defer withUsage(r, "C05")()
+	if i == len(p.cases) {
+		runChangedC05(r)
+		return r
+	}
 	c := &p.cases[i]
 	sql := p.sqlOf(c)
 	ks := keysString(c.keys)
@@ -373,12 +391,13 @@ func (p *c05) RunCase(i int) *core.CaseResult {
 		if c.limit >= 0 {
 			n = c.limit
 		}
-		lo, hi := m, m+n
+		lo := m
 		if lo > len(sorted) {
 			lo = len(sorted)
 		}
-		if hi > len(sorted) {
-			hi = len(sorted)
+		hi := len(sorted)
+		if n < hi-lo {
+			hi = lo + n
 		}
 		want := sorted[lo:hi]
 		window := "none"
@@ -389,7 +408,7 @@ func (p *c05) RunCase(i int) *core.CaseResult {
 			window = "zero"
 		case m >= len(sorted) && len(sorted) > 0 || m > 0 && len(sorted) == 0:
 			window = "beyond"
-		case m+n > len(sorted):
+		case n > len(sorted)-m:
 			window = "straddle"
 		default:
 			window = "within"
@@ -490,9 +509,9 @@ func (p *c05) runDistinct(r *core.CaseResult, c *c05case, sql string) {
 		if lo > len(seq) {
 			lo = len(seq)
 		}
-		hi := lo + c.limit
-		if hi > len(seq) {
-			hi = len(seq)
+		hi := len(seq)
+		if c.limit < hi-lo {
+			hi = lo + c.limit
 		}
 		var want []any
 		for _, b := range seq[lo:hi] {
